@@ -3,6 +3,7 @@
 //! expected values: every judgement is made by TLC against the TLA+ specification.
 mod cmp;
 mod gen;
+mod hashes;
 mod hist;
 mod obj;
 mod util;
@@ -39,6 +40,9 @@ fn main() {
             }
             if mode == "hist12" || mode == "all" {
                 gen::drive_histories(&args, &w, kb(110, 3000), kb(12, 100), true);
+            }
+            if mode == "stream" {
+                gen::drive_streams(&args, &w, thorough);
             }
             if mode == "sizes" || mode == "all" {
                 gen::drive_sizes(&args, &w, thorough);
@@ -78,12 +82,17 @@ fn main() {
                 }
             }
         }
+        "hashes" => {
+            let w = words::load("/verif/corpus/trigger_words.json");
+            hashes::drive_hashes(&args, &w, args.tier == "thorough");
+        }
         "replay" => {
             // replay <family> <in.ndjson>  --out DIR
             match args.rest[0].as_str() {
                 "gen" => gen::replay(&args.rest[1], &args.out),
                 "cmp" => cmp::replay(&args.rest[1], &args.out),
                 "obj" => hist::replay(&args.rest[1], &args.out),
+                "hashes" => hashes::replay(&args.rest[1], &args.out, &words::load("/verif/corpus/trigger_words.json")),
                 f => {
                     eprintln!("unknown replay family {}", f);
                     std::process::exit(2);
